@@ -13,7 +13,7 @@ P1 non-finite values: decstring accepts only tokens ending in a digit or '.', ev
    final characters; the dense vector reader rejects what decstring rejects.
 """
 import re
-from ..cfg import reach_calls, xrender, norm_facts, expand_locals, _stable_local_inits, Facts, kids, strip, walk, cv, render, call_args, call_object
+from ..cfg import MiniInt, reach_calls, xrender, norm_facts, expand_locals, _stable_local_inits, Facts, kids, strip, walk, cv, render, call_args, call_object
 from ..cfg import short_loc as _short_loc
 from ..facts import export_many, AnalysisBroken
 
@@ -170,6 +170,38 @@ def run(rep, ctx):
 
     def rr(n):
         return render(n).replace(" ", "").replace("'\\x0a'", "'\\n'")
+
+    # ---- K1: the suffix sets of all four kinds are written -------------------------------------------------
+    # WriteSolFile is evaluated on an empty solution (no options, no values); every sol.suffixes(kind) handed to
+    # WriteSuffixes is recorded.  Which kinds are visited does not depend on the solution.
+    k1 = rep.rule("C05.K1", "TABLE", "WriteSolFile hands the suffix sets of all four kinds (variable, constraint, objective, problem) to WriteSuffixes, "
+                  "each exactly once (evaluation of the kind enumeration)", floor=1)
+    kinds_written, box_k = [], {}
+
+    def atom_k(t_, n_, env_):
+        if n_["k"] in ("CXXMemberCallExpr", "CallExpr", "CXXOperatorCallExpr"):
+            cn = (n_.get("callee") or "").split("::")[-1]
+            if cn == "suffixes":
+                return 1000 + box_k["mi"].expr(call_args(n_)[0], env_, 0)
+            if cn == "WriteSuffixes":
+                v_ = box_k["mi"].expr(call_args(n_)[1], env_, 0)
+                kinds_written.append(v_ - 1000 if isinstance(v_, int) and v_ >= 1000 else None)
+                return 0
+            if cn in ("print", "close", "WriteMessage", "message", "objno", "status", "option") or cn.startswith("num_"):
+                return 0
+        return None
+    mik = MiniInt(F, atom_k)
+    mik.select_only = True
+    box_k["mi"] = mik
+    try:
+        mik.call(W, [0, ("obj", None, None)])
+    except AnalysisBroken as e_:
+        if "without a return" not in str(e_):
+            raise AnalysisBroken("C05.K1: WriteSolFile: %s" % e_)
+    k1.check(sorted(x for x in kinds_written if x is not None) == [0, 1, 2, 3] and None not in kinds_written, "all-kinds-written", _short_loc(W.loc),
+             "WriteSuffixes receives sol.suffixes(k) for k = VAR(0), CON(1), OBJ(2), PROBLEM(3), once each",
+             "WriteSuffixes receives the suffix sets of kinds %s: the output suffixes of kind(s) %s never reach the .sol file (or are written twice)"
+             % (kinds_written, sorted(set(range(4)) - set(kinds_written)) or "-"))
 
     # ---- T1 ---------------------------------------------------------------------------
     t1 = rep.rule("C05.T1", "TABLE", "keywords and section order agree between writer and reader", floor=8)
